@@ -1197,11 +1197,12 @@ def check_property(pid, tier, blocks, verbose=True):
     done_blocks = {}
     for n, (r, o) in enumerate(violations):
         # one native replay per block (the other failed obligations of the block point to it), at most 8 per check
-        if r.block.name in done_blocks or len(done_blocks) >= 8:
-            rp = make_replay(pid, r, o, n, blocks, same_as=done_blocks.get(r.block.name, 'replay budget of this check used up'))
+        bkey = (r.block.name, r.block.mode)
+        if bkey in done_blocks or len(done_blocks) >= 8:
+            rp = make_replay(pid, r, o, n, blocks, same_as=done_blocks.get(bkey, 'replay budget of this check used up'))
         else:
             rp = make_replay(pid, r, o, n, blocks)
-            done_blocks[r.block.name] = rp[0]
+            done_blocks[bkey] = rp[0]
         vio_files.append(rp)
     if undecided:
         for r in undecided:
@@ -1298,6 +1299,11 @@ def main(argv):
         tier = os.environ.get('VERIF_TIER', tier) if '--tier' not in argv else tier
         try:
             rc = check_property(pid, tier, blocks, verbose=True)
+        except Exception as e:          # an internal error is never a pass and never an alarm
+            import traceback
+            traceback.print_exc()
+            print('UNDECIDED: internal error of the checking machinery: %s: %s' % (type(e).__name__, e))
+            rc = 2
         finally:
             if not os.environ.get('BSV_SCRATCH'):
                 shutil.rmtree(SCRATCH, ignore_errors=True)
